@@ -284,7 +284,7 @@ fn enc_cfg_trace(evs: &[Ev], g: &Geo, only_cfg: bool) -> Vec<u128> {
 }
 
 // ---------------------------------------------------------------- typed access by (size, alignment)
-const TYPES: [(u64, u64); 21] = [(0, 1), (1, 1), (2, 1), (2, 2), (3, 1), (4, 1), (4, 2), (4, 4), (5, 1), (6, 1), (6, 2), (7, 1), (8, 1), (8, 2),
+pub const TYPES: [(u64, u64); 21] = [(0, 1), (1, 1), (2, 1), (2, 2), (3, 1), (4, 1), (4, 2), (4, 4), (5, 1), (6, 1), (6, 2), (7, 1), (8, 1), (8, 2),
     (8, 4), (8, 8), (10, 2), (12, 4), (16, 1), (16, 4), (16, 8)];
 fn le(b: &[u8]) -> u128 { let mut v = 0u128; for (i, x) in b.iter().enumerate() { v |= (*x as u128) << (8 * i); } v }
 fn rd<T: Transport, V: FromBytes + IntoBytes + Immutable>(t: &T, off: usize) -> Result<u128, Error> {
@@ -302,15 +302,15 @@ macro_rules! by_type { ($f:ident, $s:expr, $a:expr, $($x:expr),*) => { match ($s
     (10, 2) => $f::<_, [u16; 5]>($($x),*), (12, 4) => $f::<_, [u32; 3]>($($x),*), (16, 1) => $f::<_, [u8; 16]>($($x),*),
     (16, 4) => $f::<_, [u32; 4]>($($x),*), (16, 8) => $f::<_, [u64; 2]>($($x),*),
     _ => panic!("harness: no type of size {} alignment {}", $s, $a) } } }
-fn rd_dyn<T: Transport>(t: &T, s: u64, a: u64, off: usize) -> Result<u128, Error> { by_type!(rd, s, a, t, off) }
-fn wr_dyn<T: Transport>(t: &mut T, s: u64, a: u64, off: usize, v: u128) -> Result<u128, Error> { by_type!(wr, s, a, t, off, v) }
+pub fn rd_dyn<T: Transport>(t: &T, s: u64, a: u64, off: usize) -> Result<u128, Error> { by_type!(rd, s, a, t, off) }
+pub fn wr_dyn<T: Transport>(t: &mut T, s: u64, a: u64, off: usize, v: u128) -> Result<u128, Error> { by_type!(wr, s, a, t, off, v) }
 
-fn class2(r: &std::thread::Result<Result<u128, Error>>) -> [u128; 2] {
+pub fn class2(r: &std::thread::Result<Result<u128, Error>>) -> [u128; 2] {
     match r { Ok(Ok(v)) => [0, *v], Ok(Err(e)) => [1, err_code(e)], Err(_) => [2, 0] }
 }
 
 // ---------------------------------------------------------------- bounds
-fn offsets(ctx: &mut Ctx, win: u64, s: u64) -> Vec<u64> {
+pub fn offsets(ctx: &mut Ctx, win: u64, s: u64) -> Vec<u64> {
     let mut v: Vec<u64> = (0..=9).collect();
     // inside the window, aligned for every type
     for k in 1..=6u64 { v.push((win / 7 * k) & !3); v.push((win.saturating_sub(s) / 5 * k) & !3); }
